@@ -9,13 +9,18 @@ pub(crate) fn prune_journal(
     live_job_ids: &Set<JobId>,
     live_worker_ids: &Set<WorkerId>,
 ) -> crate::Result<()> {
+    // Workers that were running a task of a live job. The record of their loss has to be kept,
+    // because the crash counters of the restored tasks are computed from it.
+    let mut task_worker_ids: Set<WorkerId> = Set::new();
     for event in reader {
         let mut event = event?;
         let event = match &mut event.payload {
-            EventPayload::WorkerConnected(worker_id, _)
-            | EventPayload::WorkerLost(worker_id, _) => {
+            EventPayload::WorkerConnected(worker_id, _) => {
                 live_worker_ids.contains(worker_id).then_some(event)
             }
+            EventPayload::WorkerLost(worker_id, _) => (live_worker_ids.contains(worker_id)
+                || task_worker_ids.contains(worker_id))
+            .then_some(event),
             EventPayload::WorkerOverviewReceived(overview) => {
                 live_worker_ids.contains(&overview.id).then_some(event)
             }
@@ -26,9 +31,18 @@ pub(crate) fn prune_journal(
             | EventPayload::JobCancel { job_id, .. } => {
                 live_job_ids.contains(job_id).then_some(event)
             }
-            EventPayload::TaskStarted { task_id, .. }
-            | EventPayload::TaskFinished { task_id, .. }
-            | EventPayload::TaskFailed { task_id, .. } => {
+            EventPayload::TaskStarted {
+                task_id,
+                worker_ids,
+                ..
+            } => {
+                let is_live = live_job_ids.contains(&task_id.job_id());
+                if is_live {
+                    task_worker_ids.extend(worker_ids.iter().copied());
+                }
+                is_live.then_some(event)
+            }
+            EventPayload::TaskFinished { task_id, .. } | EventPayload::TaskFailed { task_id, .. } => {
                 live_job_ids.contains(&task_id.job_id()).then_some(event)
             }
             EventPayload::TasksAborted { task_ids } | EventPayload::TasksCanceled { task_ids } => {
